@@ -4,8 +4,8 @@ CONSTANTS
   InvalidSyms = {12}
   CR = 13
   LF = 14
-  Lines <- MCLines
+  Lines <- MCLinesDeep
   Width <- MCWidth
-  Seeds <- ReplSeeds
-  ScenariosOf <- ReplOf
+  Seeds <- ReplSeedsDeep
+  ScenariosOf <- ReplOfDeep
 INVARIANTS Emitted EmitLines
